@@ -356,6 +356,11 @@ func TestC14Fanout(t *testing.T) {
 			ReverseDns: true, PublicIP: rapid.Bool().Draw(rt, "pubip")}
 		rq.Scripts = []FlowScript{{DestDist: oneOf(rt, "dest", 0, 3, 5), Default: HopSpec{DelayUs: 2000}}, {DestDist: 4, Default: HopSpec{DelayUs: 9000}}}
 		rq.DNSDefault = DNSScript{Names: []string{"x.example."}, DelayMs: oneOf(rt, "dns_delay", 0, 3)}
+		// a third of the requests fail everywhere at once: every run and every e2e probe reports its error at
+		// about the same instant (the error collection is shared state too)
+		if oneOf(rt, "all_fail", false, false, true) {
+			rq.Faults = []Fault{{Kind: "sink", Handle: -1, Op: "WriteTo", K: oneOf(rt, "fail_k", 1, 1, 2), Class: "fatal"}}
+		}
 		return rq
 	}, func(t *testing.T, rq *Request, rec *Recorder) []Diff {
 		o := RunRequest(t, rq)
@@ -368,7 +373,7 @@ func TestC14Fanout(t *testing.T) {
 		}
 		reversedns.GetReverseDnsForIPs(ips)
 		reversedns.LookupAddrFn = old
-		rec.Case(scenarioKey(rq), o.Err == nil && rq.P.Queries >= 2, rq, "protocol:"+rq.P.Protocol)
+		rec.Case(scenarioKey(rq), (o.Err == nil || len(rq.Faults) > 0) && rq.P.Queries >= 2, rq, "protocol:"+rq.P.Protocol, fmt.Sprintf("all_fail:%v", len(rq.Faults) > 0))
 		return nil
 	})
 }
